@@ -191,7 +191,13 @@ def d1(cx: Cx, ob: Ob) -> None:
             if elsewhere:
                 ob.undecide(f"{fname} updates records at line {elsewhere[0].line}, but not a copy of the record its main loop iterates (decisions and copies are made in separate passes): the set algebra of that form is not analysed")
             else:
-                ob.violate(fn.qualname, fn.where, f"{fname} has no path that updates a record", detail="no-update-path")
+                from ..rules import delegated_record_updates
+
+                dl = delegated_record_updates(cx, fn, {"uri_prefix", "uri_prefix_synonyms"})
+                if dl:
+                    ob.undecide(f"{fname} leaves the update of the record to {dl[0].rsplit('.', 2)[-2] + '.' + dl[0].rsplit('.', 1)[-1] if dl[0].count('.') > 2 else dl[0]}: the set algebra of an update made by another function is not analysed")
+                else:
+                    ob.violate(fn.qualname, fn.where, f"{fname} has no path that updates a record", detail="no-update-path")
 
 
 def _worlds():
@@ -270,6 +276,13 @@ def d2(cx: Cx, ob: Ob) -> None:
             continue
         fn, s, conv, lp = r
         table = {}
+        from ..rules import delegated_record_updates
+
+        if not any(ev.kind == "store" and op(ev.a) == "attr" and ev.a[2] in ("uri_prefix", "uri_prefix_synonyms") for ev, _ in s.walk()):
+            dl = delegated_record_updates(cx, fn, {"uri_prefix", "uri_prefix_synonyms"})
+            if dl:
+                ob.undecide(f"{fname} leaves the decision and the update to {dl[0].rsplit('.', 1)[-1]} (another function): its decision table is not analysed")
+                continue
         for p in lp.body:
             rec = record_term(p, lp)
             new = helper_call(p, lp, rec, helper)
